@@ -109,6 +109,7 @@ static int ref_is_startup(const int *g, const int *p)
 }
 
 static int n_again, n_multi, n_created_total;
+static unsigned again_mask;      /* bit k set: some call returned AGAIN after k tasks had been created in that run */
 
 static void draw_s(void)
 {
@@ -139,6 +140,7 @@ static void one(int v)
     for (int c = 0; c < MAXCALLS && rc == PARSEC_HOOK_RETURN_AGAIN; c++) {
         rc = STARTUP_FN(&the_es, &the_gen_task);
         calls++;
+        if (rc == PARSEC_HOOK_RETURN_AGAIN && n_alloc < 32) again_mask |= 1u << n_alloc;
     }
     VASSERTM(rc == PARSEC_HOOK_RETURN_DONE, "startup terminates (DONE) within #tasks+2 re-entries");
     VASSERTM(n_alloc <= MAXT, "startup creates no more tasks than the reference bound");
@@ -169,6 +171,15 @@ int main(void)
     VWITNESS("startup ran to DONE on a rank that owns only part of the space");
 #else
     if (n_created_total >= 1) VWITNESS("startup created at least one task");
+#endif
+#ifdef AGAIN_POS
+    /* coverage of the re-entry positions: the generated code hands tasks over in batches of 2, 3, 4 ... so a
+     * run is suspended after 2 tasks (chunk 0..1), after 4 (iter 1, chunk 2..3), after 5 (iter >= 2, chunk 2..4),
+     * and then again relative to each re-entry: with >= 6 startup tasks all of these positions occur */
+    if (again_mask & (1u << 2)) VWITNESS("a run was suspended and re-entered after 2 created tasks");
+    if (again_mask & (1u << 4)) VWITNESS("a run was suspended and re-entered after 4 created tasks");
+    if (again_mask & (1u << 5)) VWITNESS("a run was suspended and re-entered after 5 created tasks");
+    if ((again_mask & (1u << 2)) && (again_mask & (1u << 4))) VWITNESS("a run was re-entered twice");
 #endif
 #ifndef NO_MULTI
     if (n_again >= 1 && n_multi >= 1) VWITNESS("a run with several startup tasks went through a PARSEC_HOOK_RETURN_AGAIN re-entry");
